@@ -39,6 +39,28 @@ func (in *Interp) rpoOf(fn *ssa.Function) map[*ssa.BasicBlock]int {
 	return r
 }
 
+// blockID identifies a basic block stably across workers and runs.
+func blockID(fn *ssa.Function, b *ssa.BasicBlock) int {
+	h := uint32(2166136261)
+	for _, c := range []byte(fn.String()) {
+		h = (h ^ uint32(c)) * 16777619
+	}
+	h = (h ^ uint32(b.Index)) * 16777619
+	return int(h & 0x7fffffff)
+}
+
+// markMergeOK records a successful attempt at its start position so that a
+// replay can tell it apart from a failed attempt of the same block.
+func (in *Interp) markMergeOK(replaying bool, startPos, bid int) {
+	if replaying {
+		return
+	}
+	in.dec = append(in.dec, decision{})
+	copy(in.dec[startPos+1:], in.dec[startPos:])
+	in.dec[startPos] = decision{kind: dMergeOK, chosen: bid}
+	in.pos++
+}
+
 type mergeEdge struct {
 	from  *ssa.BasicBlock
 	guard *Term
@@ -54,10 +76,29 @@ type mergeRet struct {
 // to the join block (returned=false) or the function's result has been set
 // (returned=true).
 func (in *Interp) tryMerge(fr *frame, b *ssa.BasicBlock, c *Term) (merged bool, returned bool) {
-	if in.mergeFail[b] {
+	if b.Succs[0] == b.Succs[1] {
 		return false, false
 	}
-	if b.Succs[0] == b.Succs[1] {
+	// Failed attempts are recorded in the decision log as a marker so that a
+	// re-execution (possibly on another worker with different caches) follows
+	// exactly the same sequence of logged solver answers.
+	startPos := in.pos
+	replaying := in.pos < len(in.dec)
+	bid := blockID(fr.fn, b)
+	in.ev("tryMerge %s b%d pos=%d len=%d replaying=%v cached=%v outer=%v", fr.fn.Name(), b.Index, in.pos, len(in.dec), replaying, in.mergeFail[b], in.mergeGuard != nil)
+	if replaying {
+		d := in.dec[in.pos]
+		if d.kind == dMergeFail && d.chosen == bid {
+			in.pos++
+			return false, false
+		}
+		if d.kind != dMergeOK || d.chosen != bid {
+			in.endPath(EndInternal, "decision log mismatch (merge attempt)")
+		}
+		in.pos++
+	} else if in.mergeFail[b] {
+		in.dec = append(in.dec, decision{kind: dMergeFail, chosen: bid, dbg: fr.fn.Name() + " b" + itoa(b.Index) + " cached cond=" + c.String()})
+		in.pos++
 		return false, false
 	}
 	outer := in.mergeGuard
@@ -108,9 +149,15 @@ func (in *Interp) tryMerge(fr *frame, b *ssa.BasicBlock, c *Term) (merged bool, 
 					}
 				}
 				in.stats.MergeAborts++
+				in.ev("  abort %s b%d: %s static=%v", fr.fn.Name(), b.Index, ma.why, ma.static)
 				if ma.static {
 					in.mergeFail[b] = true
 				}
+				if replaying {
+					panic(pathEnd{EndInternal, "merge attempt failed during replay although the log says it succeeded: " + ma.why})
+				}
+				in.dec = append(in.dec[:startPos], decision{kind: dMergeFail, chosen: bid, dbg: fr.fn.Name() + " b" + itoa(b.Index) + " " + ma.why + " cond=" + c.String()})
+				in.pos = startPos + 1
 				if outer != nil {
 					// nested: the enclosing merge cannot continue either
 					panic(mergeAbort{ma.why, false})
@@ -144,6 +191,7 @@ func (in *Interp) tryMerge(fr *frame, b *ssa.BasicBlock, c *Term) (merged bool, 
 			fr.result = res
 			fr.block = nil
 			in.stats.Merges++
+			in.markMergeOK(replaying, startPos, bid)
 			return true, true
 		}
 		var x *ssa.BasicBlock
@@ -159,6 +207,7 @@ func (in *Interp) tryMerge(fr *frame, b *ssa.BasicBlock, c *Term) (merged bool, 
 		if len(active) == 1 && len(rets) == 0 {
 			in.joinAt(fr, x, edges)
 			in.stats.Merges++
+			in.markMergeOK(replaying, startPos, bid)
 			return true, false
 		}
 		delete(active, x)
